@@ -28,7 +28,8 @@ META = {
         ' Also: definite assignment of every local in the parser package (one accepted loop-witness idiom), staged optional components are only formatted, raise sites are conditional (guards incl. early-exit clauses).'
         " Round 7: TABLE[key] with a key computed from a regex group finds a key for every enumerated member of the group's language; every consumed section/lot reference registers a number (callers index [0]); decompiled config text consists of typed settings only; re-raising the same exception type is not a new exception."
         ' Round 8: no ordering / arithmetic on the optional numbers (twp_num / rge_num / sec_num) without a None test; reduce() / max() / min() not on a possibly empty sequence; every OCR look-alike the pattern captures is converted before an unguarded int().'
-        ' Round 9: a recursive call changes something; float() on an acreage is guarded (the pattern accepts empty brackets); a result list filtered after the scan cannot come back empty to an unguarded [0].'),
+        ' Round 9: a recursive call changes something; float() on an acreage is guarded (the pattern accepts empty brackets); a result list filtered after the scan cannot come back empty to an unguarded [0].'
+        ' Round 10: int() under an `.isdecimal()` test counts as guarded; config value validation is followed into the helper the value is handed to.'),
     'assumptions': [
         "methods of str/list/dict on well-typed receivers do not raise; re does not raise on valid patterns; recursion depth",
     ],
@@ -512,6 +513,15 @@ def _int_sites(ctx):
             if in_try:
                 ctx.ok('EXC', f"{fi.qualname}: {norm(c)[:40]} inside try/except ValueError")
                 continue
+            # `if num.isdecimal(): num = str(int(num))`: the test admits exactly the strings int() takes
+            from ..srcmodel import guards as _guards, literals as _literals
+            tested = [t for t, txt, pol in _literals(_guards(c)) if pol and isinstance(t, ast.Call)
+                      and isinstance(t.func, ast.Attribute) and t.func.attr == 'isdecimal' and not t.args
+                      and norm(t.func.value) == norm(arg)]
+            if tested and not any(isinstance(x, ast.Name) and isinstance(x.ctx, ast.Store) and x.id == norm(arg)
+                                  and tested[0].lineno < x.lineno < c.lineno for x in walk_local(fi.node)):
+                ctx.ok('EXC', f"{fi.qualname}: {norm(c)[:40]} under `{norm(tested[0])}`")
+                continue
             prov = flow.provenance(fi.node, arg)
             calls = flow.prov_calls(prov)
             strippers = sorted(cn for cn in calls if cn.split('.')[-1] in ('lstrip', 'rstrip', 'strip', 'replace'))
@@ -831,8 +841,27 @@ def _kwargs(ctx):
     # validation parity of the two config readers
     s = ctx.repo.func('Config._set_str_to_values')
     st = ' '.join(norm(x) for x in walk_local(s.node) if isinstance(x, ast.stmt))
+    # the conversion may live in a helper the value is handed to (`value = _convert_value(attribute, value, ...)`)
+    handed = False
+    for c in walk_local(s.node):
+        if isinstance(c, ast.Call) and any(isinstance(a, ast.Name) and a.id == 'value' for a in c.args):
+            nm = dotted(c.func) or ''
+            if nm.split('.')[-1] in ('str_to_value', 'setattr', 'verify_default_ns', 'verify_default_ew', 'isinstance'):
+                continue
+            node = flow.RESOLVER(nm, c, s.node) if flow.RESOLVER and nm else None
+            if node is not None:
+                params = [a.arg for a in node.args.args if a.arg not in ('self', 'cls')]
+                pos = [i for i, a in enumerate(c.args) if isinstance(a, ast.Name) and a.id == 'value']
+                txt_ = ' '.join(norm(x) for x in ast.walk(node) if isinstance(x, ast.stmt))
+                if pos and pos[0] < len(params) and params[pos[0]] != 'value':
+                    import re as _re
+                    txt_ = _re.sub(rf"\b{params[pos[0]]}\b", 'value', txt_)
+                st += ' ' + txt_
+            handed = True
     for cat, needle in (('bool', 'not isinstance(value, bool)'), ('int', 'not isinstance(value, int)'),
                         ('layout', 'value not in _IMPLEMENTED_LAYOUTS')):
-        ctx.check(needle in st, 'EXC', f"config text: {cat} values are validated (ValueError), not stored as str",
-                  detail_bad=f"a malformed {cat} value in a config string is stored and fails later inside the parse",
-                  key=f"EXC|_set_str_to_values|{cat}")
+        ctx.tri(needle in st, needle not in st and not handed, 'EXC',
+                f"config text: {cat} values are validated (ValueError), not stored as str",
+                detail_bad=f"a malformed {cat} value in a config string is stored and fails later inside the parse",
+                key=f"EXC|_set_str_to_values|{cat}",
+                why="the value is handed to a helper whose validation was not recognised")
